@@ -3,6 +3,7 @@ mod astgen;
 mod clock;
 mod controller;
 mod corpus;
+mod edge;
 mod exec;
 mod gen;
 mod hashkeys;
@@ -52,11 +53,11 @@ fn main() {
             let pool = run::CallerPool::new(model::MAX_THREADS);
             let t0 = std::time::Instant::now();
             let mut viol = 0;
-            let mut compared = 0; let mut misses = 0; let mut reqs = 0;
+            let mut compared = 0; let mut misses = 0; let mut reqs = 0; let mut edges = 0u64; let mut offers = 0u64; let mut intra = 0u64;
             for s in seed0..seed0 + n {
-                let job = worker::Job { seed: s, flavor: flavor.clone(), log, want_spec: log, spec: None, want_trace: false };
+                let job = worker::Job { seed: s, flavor: flavor.clone(), log, want_spec: log, spec: None, want_trace: false, dense: false };
                 let o = worker::exec_job(&job, &refc, Some(&pool));
-                compared += o.rec.compared; misses += o.rec.ref_misses; reqs += o.rec.ref_requests;
+                compared += o.rec.compared; misses += o.rec.ref_misses; reqs += o.rec.ref_requests; edges += o.rec.edges; offers += o.rec.edge_offers; intra += o.rec.intra_call_preemptions;
                 if log {
                     if let Some(sp) = &o.rec.spec {
                         println!("{}", serde_json::to_string(sp).unwrap());
@@ -69,7 +70,7 @@ fn main() {
                 }
                 if o.poisoned { println!("poisoned at seed {}", s); break; }
             }
-            println!("{} runs, {} compared, {} with violations, {} ref requests {} server misses, {:.2}s", n, compared, viol, reqs, misses, t0.elapsed().as_secs_f64());
+            println!("{} runs, {} compared, {} with violations, {} ref requests {} server misses, {:.2}s; dense={} edges={} offered={} intra-call preemptions={}", n, compared, viol, reqs, misses, t0.elapsed().as_secs_f64(), hook::dense_build(), edges, offers, intra);
         }
         "check" => {
             let mut tier = std::env::var("VERIF_TIER").unwrap_or_else(|_| "quick".into());
